@@ -1023,6 +1023,22 @@ fn check(ctx: &Ctx) -> i32 {
         check_single(&rule, &env, l);
     });
 
+    // sweep 1b: short patterns over an alphabet with multi-byte characters (2, 3 and 4 bytes) next to
+    // the pattern metacharacters: whatever is done with such a rule (refused or converted), no
+    // character arithmetic may go wrong
+    const SIGMA_U: [&str; 7] = ["a", "/", "^", "*", "\u{e9}", "\u{6587}", "\u{1f600}"];
+    let n_u: u32 = ctx.tier.pick(5, 6);
+    let bodies_u = count_strings_upto(SIGMA_U.len() as u64, n_u) - 1;
+    ctx.bound("pattern_alphabet_multibyte", json!(SIGMA_U));
+    ctx.bound("pattern_multibyte_max_len", n_u);
+    ctx.par_range("patterns-multibyte", bodies_u * per_body, 32, |i, l| {
+        let body = nth_string(i / per_body + 1, &SIGMA_U);
+        let k = (i % per_body) as usize;
+        let (m, f) = (MODES[k % MODES.len()], FRAMES[k / MODES.len()]);
+        let rule = format!("{}{}{}{}{}", f.0, m.0, body, m.1, f.1);
+        check_single(&rule, &env, l);
+    });
+
     // sweep 2: single-edit neighbourhood of the alphabet
     let mut starts: Vec<u64> = vec![0];
     for r in &alpha {
